@@ -1,5 +1,6 @@
 #[macro_use]
 pub mod engine;
+pub mod fuzz;
 pub mod gen;
 pub mod matops;
 pub mod oracle;
